@@ -15,21 +15,21 @@ Proof.
   - inversion H; reflexivity.
   - cbn [existsb]. unfold s_np_port_matches at 1.
     destruct (pp_port pp) as [|a|nm] eqn:Hport.
-    + rewrite andb_true_r. destruct (proto_eqb (pp_proto pp) pr); [inversion H; reflexivity | apply IH; exact H].
-    + unfold get_ports_range in H. rewrite Hport in H. cbn [bind] in H. unfold rule_port_contains in H.
-      destruct (proto_eqb (pp_proto pp) pr); cbn [andb] in *; [|apply IH; exact H].
-      destruct ((a <=? n) && (n <=? match pp_end pp with Some e => e | None => a end));
-        [inversion H; reflexivity | apply IH; exact H].
+    + rewrite andb_true_r. destruct (np_ports_contain t dst pr n) as [rest|] eqn:Hr; cbn [bind] in H; [|discriminate].
+      injection H as <-. rewrite (IH rest eq_refl). reflexivity.
+    + unfold get_ports_range in H. rewrite Hport in H. cbn [bind] in H.
+      destruct (np_ports_contain t dst pr n) as [rest|] eqn:Hr; cbn [bind] in H; [|discriminate].
+      injection H as <-. rewrite (IH rest eq_refl). unfold rule_port_contains. reflexivity.
     + unfold get_ports_range in H. rewrite Hport in H.
       destruct dst as [d nsl|bl]; [|discriminate].
       destruct (pod_named_port (p_ports d) nm) as [[q m]|].
-      * destruct (proto_eqb q (pp_proto pp)); cbn [bind] in H; unfold rule_port_contains in H.
-        -- destruct (proto_eqb (pp_proto pp) pr); cbn [andb] in *; [|apply IH; exact H].
-           replace ((m <=? n) && (n <=? m)) with (m =? n) in H by lia.
-           destruct (m =? n); [inversion H; reflexivity | apply IH; exact H].
-        -- rewrite andb_false_r in H. cbn [andb]. rewrite andb_false_r. apply IH; exact H.
-      * cbn [bind] in H. unfold rule_port_contains in H. rewrite andb_false_r in H. rewrite andb_false_r.
-        apply IH; exact H.
+      * destruct (proto_eqb q (pp_proto pp)); cbn [bind] in H;
+          (destruct (np_ports_contain t (PPod d nsl) pr n) as [rest|] eqn:Hr; cbn [bind] in H; [|discriminate]);
+          injection H as <-; rewrite (IH rest eq_refl); f_equal; unfold rule_port_contains;
+          destruct (proto_eqb (pp_proto pp) pr); cbn [andb]; try reflexivity; try lia.
+      * cbn [bind] in H. destruct (np_ports_contain t (PPod d nsl) pr n) as [rest|] eqn:Hr; cbn [bind] in H; [|discriminate].
+        injection H as <-. rewrite (IH rest eq_refl). f_equal; unfold rule_port_contains;
+        destruct (proto_eqb (pp_proto pp) pr); reflexivity.
 Qed.
 
 Lemma np_rule_contains_ok ports dst pr n b :
@@ -51,7 +51,8 @@ Proof.
     destruct sel; cbn [negb andb] in *; [|apply IH; exact H].
     destruct (np_rule_contains (nr_ports r) dst pr n) as [c|] eqn:Hc; cbn [bind] in H; [|discriminate].
     apply np_rule_contains_ok in Hc. rewrite <- Hc.
-    destruct c; [inversion H; reflexivity | apply IH; exact H].
+    destruct (np_rules_allow npns t other dst pr n) as [rest|] eqn:Hr; cbn [bind] in H; [|discriminate].
+    injection H as <-. rewrite (IH rest eq_refl). reflexivity.
 Qed.
 
 Lemma np_policy_allows_ok np src dst ingress pr n b :
@@ -69,7 +70,8 @@ Proof.
   - cbn [existsb].
     destruct (np_policy_allows np src dst ingress pr n) as [a|] eqn:Ha; cbn [bind] in H; [|discriminate].
     apply np_policy_allows_ok in Ha. rewrite <- Ha.
-    destruct a; [inversion H; reflexivity | apply IH; exact H].
+    destruct (nps_allow t src dst ingress pr n) as [rest|] eqn:Hr; cbn [bind] in H; [|discriminate].
+    injection H as <-. rewrite (IH rest eq_refl). reflexivity.
 Qed.
 
 Lemma np_layer_point_ok w src dst ingress pr n r :
